@@ -33,7 +33,8 @@ def has_cycle(nodes, deps):
     return any(col.get(u) is None and dfs(u) for u in sorted(nodes))
 
 
-def closure(listed, deps):
+def closure(listed, deps, anti=None):
+    """modules that get loaded: the listed ones, what they depend on, and what they declare themselves back-ends of"""
     clo, st = set(), list(listed)
     while st:
         u = st.pop()
@@ -41,7 +42,19 @@ def closure(listed, deps):
             continue
         clo.add(u)
         st += deps.get(u, [])
+        st += (anti or {}).get(u, [])
     return clo
+
+
+def effective(clo, deps, anti):
+    """dependency edges in force among the loaded modules: a module depends on what it named with module_depends()
+    and on every loaded module that declared itself its back-end with module_antidepends()"""
+    eff = {m: list(deps.get(m, [])) for m in clo}
+    for b in sorted(clo):
+        for a in (anti or {}).get(b, []):
+            if a in eff and b not in eff[a]:
+                eff[a].append(b)
+    return eff
 
 
 class ModProfile:
@@ -107,6 +120,22 @@ class ModProfile:
             fault = {"kind": rnd.choice(["missing", "notelf"]), "module": rnd.choice(nodes)}
         # which optional hooks each module exports (post-init and destructor are both optional)
         variant = {m: rnd.choices(["", "_np", "_nd", "_npd"], [5, 2, 1, 1])[0] for m in nodes} if rnd.random() < 0.6 else {}
+        anti, backend = {}, []
+        if shape != "hub" and rnd.random() < 0.25:
+            # back-end declarations: module b says it is a back-end provider of a (so a depends on b, and b must be
+            # unloaded after a); consistent with the intended order, so the graph stays acyclic
+            for _ in range(rnd.choice([1, 1, 2, 3])):
+                i, j = sorted(rnd.sample(range(n), 2))
+                a, b = order[i], order[j]
+                if b not in deps[a] and a not in anti.get(b, []):
+                    anti.setdefault(b, []).append(a)
+        if rnd.random() < 0.2:
+            backend = sorted(m for m in nodes if rnd.random() < 0.3)      # "I am a back-end of the core"
+        if rnd.random() < 0.25:
+            # a module need not export a constructor either (such a module cannot declare dependencies)
+            for m in nodes:
+                if not deps[m] and m not in anti and m not in backend and rnd.random() < 0.5:
+                    variant[m] = "_nc"
         bulk = 0
         if rnd.random() < 0.012:
             # a crowd of independent modules, all listed, whose names sort before everybody else's
@@ -119,7 +148,7 @@ class ModProfile:
             if rnd.random() < 0.5:
                 rnd.shuffle(listed)
         plan = {"profile": "modules", "nodes": nodes, "deps": deps, "listed": listed, "fault": fault, "shape": shape, "cyc": cyc, "bulk": bulk,
-                "variant": variant,
+                "variant": variant, "anti": anti, "backend": backend,
                 # modules that declare all their dependencies in one module_depends() call
                 "onecall": sorted(m for m in nodes if 2 <= len(deps[m]) <= 12 and rnd.random() < 0.5),
                 "stop": rnd.choice(["HUP", "HUP", "EOFLESS"])}
@@ -145,9 +174,16 @@ class ModProfile:
         env = {"VERIF_DEPS_" + m: ",".join(deps.get(m, [])) for m in nodes}
         for m in plan.get("onecall", []):
             env["VERIF_DEPMODE_" + m] = "1"
+        anti = plan.get("anti") or {}
+        for m, v in anti.items():
+            env["VERIF_ANTI_" + m] = ",".join(v)
+        for m in plan.get("backend") or []:
+            env["VERIF_BACKEND_" + m] = "1"
         h = H.Host(conf, scratch, env=env)
         res.transcript.append(("conf", text))
         res.transcript.append(("deps", deps, []))
+        if anti or plan.get("backend"):
+            res.transcript.append(("back-end declarations", {"antidepends": anti, "is_backend": plan.get("backend")}, []))
         res.transcript.append(("fault", fault, []))
         notes = []
         reached = h.ready is not None and h.ready.status == "READY"
@@ -168,7 +204,11 @@ class ModProfile:
         res.transcript.append(("events", [" ".join(e) for e in ev], []))
         res.transcript.append(("outcome", {"reached_loop": reached, "rc": ex.rc, "stderr": ex.stderr[-300:]}, []))
         viol = []
-        clo = closure(listed, deps)
+        clo = closure(listed, deps, anti)
+        declared = deps
+        deps = effective(clo, declared, anti)       # from here on: the edges in force among the loaded modules
+        for m in nodes:
+            deps.setdefault(m, list(declared.get(m, [])))
         bad = has_cycle(clo, deps) or (fault is not None and fault["module"] in clo)
         res.extra = {"graphs": 1, "acyclic_loadable": int(not bad), "cyclic": int(has_cycle(clo, deps)),
                      "unloadable": int(fault is not None and fault["module"] in clo),
@@ -176,7 +216,10 @@ class ModProfile:
                      "runs_with_over_125_modules": int(bool(plan.get("bulk"))),
                      "modules_declaring_all_dependencies_in_one_call": len([m for m in plan.get("onecall", []) if m in clo]),
                      "modules_without_postinit": sum(1 for m in clo if plan.get("variant", {}).get(m, "") in ("_np", "_npd")),
-                     "modules_without_destructor": sum(1 for m in clo if plan.get("variant", {}).get(m, "") in ("_nd", "_npd"))}
+                     "modules_without_destructor": sum(1 for m in clo if plan.get("variant", {}).get(m, "") in ("_nd", "_npd")),
+                     "antidepends_edges": sum(len(v) for m, v in anti.items() if m in clo),
+                     "modules_declaring_is_backend": len([m for m in plan.get("backend") or [] if m in clo]),
+                     "modules_without_constructor": sum(1 for m in clo if plan.get("variant", {}).get(m, "") == "_nc")}
         pos = {}
         for i, e in enumerate(ev):
             pos.setdefault(tuple(e), i)
@@ -193,20 +236,27 @@ class ModProfile:
                                       (reached, ex.rc, (ex.out.decode("latin1") + ex.stderr)[-300:].replace("\n", " "))))
             else:
                 var = plan.get("variant", {})
-                has_pi = {m: var.get(m, "") in ("", "_nd") for m in clo}
-                has_dt = {m: var.get(m, "") in ("", "_np") for m in clo}
+                has_pi = {m: var.get(m, "") in ("", "_nd", "_nc") for m in clo}
+                has_dt = {m: var.get(m, "") in ("", "_np", "_nc") for m in clo}
+                has_ct = {m: var.get(m, "") != "_nc" for m in clo}
                 for m in sorted(clo):
                     for k in ("ctor-begin", "ctor-end", "postinit", "dtor"):
                         c = sum(1 for e in ev if e[0] == k and e[1] == m)
-                        want = 1 if (k.startswith("ctor") or (k == "postinit" and has_pi[m]) or (k == "dtor" and has_dt[m])) else 0
+                        want = 1 if ((k.startswith("ctor") and has_ct[m]) or (k == "postinit" and has_pi[m]) or (k == "dtor" and has_dt[m])) else 0
                         if c != want:
                             viol.append(Violation(("C20",), "count", "%s of %s happened %d times, expected %d" % (k, m, c, want)))
                 if not viol:
                     for m in sorted(clo):
-                        for d in deps[m]:
+                        for d in declared[m]:
+                            if any(a in clo for a in anti):
+                                # a back-end's module_antidepends() loads the other module from inside the
+                                # back-end's own constructor: whatever is loaded from there may name the
+                                # half-constructed back-end.  The construction clause is checked for graphs
+                                # without such declarations; post-init and destructor order apply to all.
+                                continue
                             if ("dep-return", m, d) not in pos:
                                 viol.append(Violation(("C20",), "ctor-order", "%s declared a dependency on %s but its module_depends() call was never seen to return" % (m, d)))
-                            elif not pos[("ctor-end", d)] < pos[("dep-return", m, d)]:
+                            elif has_ct[d] and not pos[("ctor-end", d)] < pos[("dep-return", m, d)]:
                                 viol.append(Violation(("C20",), "ctor-order", "%s was still constructing when %s's module_depends(%s) returned" % (d, m, d)))
                         # transitively: a module without the hook in between does not break the chain
                         for d in sorted(closure(deps[m], deps) - {m}):
@@ -214,7 +264,7 @@ class ModProfile:
                                 viol.append(Violation(("C20",), "postinit-order", "post-init of %s ran before that of its dependency %s" % (m, d)))
                             if has_dt[m] and has_dt[d] and not pos[("dtor", m)] < pos[("dtor", d)]:
                                 viol.append(Violation(("C20",), "dtor-order", "destructor of %s ran after that of its dependency %s" % (m, d)))
-                    lastctor = max(pos[("ctor-end", m)] for m in clo)
+                    lastctor = max([pos[("ctor-end", m)] for m in clo if has_ct[m]] or [-1])
                     firstpi = min([pos[("postinit", m, m)] for m in clo if has_pi[m]] or [len(ev)])
                     if not lastctor < firstpi:
                         viol.append(Violation(("C20",), "postinit-early", "a post-init ran before every module was constructed"))
@@ -279,6 +329,23 @@ class ModProfile:
             if cur["variant"][m] and budget[0] > 0:
                 c = copy.deepcopy(cur)
                 c["variant"][m] = ""
+                budget[0] -= 1
+                if pred(c):
+                    cur = c
+        for m in sorted(cur.get("anti") or {}):
+            j = 0
+            while j < len(cur["anti"][m]) and budget[0] > 0:
+                c = copy.deepcopy(cur)
+                del c["anti"][m][j]
+                budget[0] -= 1
+                if pred(c):
+                    cur = c
+                else:
+                    j += 1
+        for m in list(cur.get("backend") or []):
+            if budget[0] > 0:
+                c = copy.deepcopy(cur)
+                c["backend"].remove(m)
                 budget[0] -= 1
                 if pred(c):
                     cur = c
